@@ -58,6 +58,130 @@ def _pattern_value(node, env, what):
 CMP = {ast.Gt: "Z.gtb", ast.GtE: "Z.geb", ast.Lt: "Z.ltb", ast.LtE: "Z.leb", ast.Eq: "Z.eqb"}
 
 
+REDUCE_BODY = ["right = operand_stack.pop()", "left = operand_stack.pop()", "operator = operator_stack.pop()",
+               "operand_stack.append(Expression(operator, left, right))"]
+
+
+def _reduce_helper(builder):
+    """the nested function that pops two operands and one operator and pushes the sub-tree (whatever its name):
+    its body must be exactly the four statements the builder model's [reduce] was written for"""
+    found = []
+    for st in builder.body:
+        if isinstance(st, ast.FunctionDef) and not st.args.args:
+            body = [ast.unparse(b) for b in translate.strip_doc(st.body)]
+            if body == REDUCE_BODY:
+                found.append(st.name)
+    if len(found) != 1:
+        raise TranslateError(FILE, builder, "reduce helper (pop right, pop left, pop operator, push Expression) not found")
+    return found[0]
+
+
+def _prec_compare(t, top_names, where):
+    """precedence[token] CMP precedence[<top of the operator stack>]  ->  Coq comparison name"""
+    if not (isinstance(t, ast.Compare) and len(t.ops) == 1 and type(t.ops[0]) in CMP
+            and ast.unparse(t.left) == "precedence[token]"
+            and ast.unparse(t.comparators[0]) in ["precedence[{}]".format(n) for n in top_names]):
+        raise TranslateError(FILE, t, "token loop: {} comparison".format(where))
+    return CMP[type(t.ops[0])]
+
+
+def _token_loop(loop, reduce_name):
+    """two recognised shapes of the loop over the tokens (anything else fails closed):
+       A  [top = operator_stack[-1]]
+          if isinstance(token, list): <recurse>
+          elif token in precedence and prec[token] C1 prec[top]: operator_stack.append(token)
+          elif token in precedence and prec[token] C2 prec[top]: reduce(); operator_stack.append(token)
+          else: operand_stack.append(token)
+       B  if isinstance(token, list): <recurse>
+          elif token in precedence:
+              if prec[token] C2 prec[top]: reduce()
+              operator_stack.append(token)
+          else: operand_stack.append(token)
+          which is shape A with C1 = not C2.
+    returns [C1, C2] as Coq comparison functions"""
+    if ast.unparse(loop.target) != "token" or ast.unparse(loop.iter) != "tokens" or loop.orelse:
+        raise TranslateError(FILE, loop, "token loop shape")
+    body = list(loop.body)
+    top_names = ["operator_stack[-1]"]
+    if len(body) == 2 and isinstance(body[0], ast.Assign) and len(body[0].targets) == 1 \
+            and isinstance(body[0].targets[0], ast.Name) and ast.unparse(body[0].value) == "operator_stack[-1]":
+        top_names.append(body[0].targets[0].id)
+        body = body[1:]
+    if len(body) != 1 or not isinstance(body[0], ast.If):
+        raise TranslateError(FILE, loop, "token loop shape")
+    node = body[0]
+    if ast.unparse(node.test) != "isinstance(token, list)" or \
+            [ast.unparse(b) for b in node.body] != ["operand_stack.append(__construct_expression_tree_with_list(token))"]:
+        raise TranslateError(FILE, node, "token loop: list branch")
+    if len(node.orelse) != 1 or not isinstance(node.orelse[0], ast.If):
+        raise TranslateError(FILE, node, "token loop: elif chain")
+    node = node.orelse[0]
+    push, reduce_call = "operator_stack.append(token)", reduce_name + "()"
+    if ast.unparse(node.test) == "token in precedence":
+        # shape B
+        if len(node.body) != 2 or not isinstance(node.body[0], ast.If) or node.body[0].orelse \
+                or [ast.unparse(b) for b in node.body[0].body] != [reduce_call] or ast.unparse(node.body[1]) != push:
+            raise TranslateError(FILE, node, "token loop: operator branch")
+        c2 = _prec_compare(node.body[0].test, top_names, "reduce")
+        cmps = ["(fun a b => negb ({} a b))".format(c2), c2]
+    else:
+        cmps = []
+        for which in ("push", "reduce"):
+            t = node.test
+            if not (isinstance(t, ast.BoolOp) and isinstance(t.op, ast.And) and len(t.values) == 2
+                    and ast.unparse(t.values[0]) == "token in precedence"):
+                raise TranslateError(FILE, node, "token loop: {} test".format(which))
+            cmps.append(_prec_compare(t.values[1], top_names, which))
+            want = [push] if which == "push" else [reduce_call, push]
+            if [ast.unparse(b) for b in node.body] != want:
+                raise TranslateError(FILE, node, "token loop: {} body".format(which))
+            if which == "push":
+                if len(node.orelse) != 1 or not isinstance(node.orelse[0], ast.If):
+                    raise TranslateError(FILE, node, "token loop: elif chain")
+                node = node.orelse[0]
+    if [ast.unparse(b) for b in node.orelse] != ["operand_stack.append(token)"]:
+        raise TranslateError(FILE, node, "token loop: operand branch")
+    return cmps
+
+
+def _evaluator_literals(ev):
+    """the four string literals of __evaluate_unit_tree, located by their role (each must be found exactly once):
+         <op> == P          (not the test of a  1 if .. else -1)     the power operator
+         <op> in [M1, M2]   (list or tuple)                          the multiplication / division operators
+         1 if <op> == T else -1                                      the operator that counts positively
+         tree != O   or   tree == O                                  the empty-numerator leaf
+       <op> is  tree.operator  or a local name assigned  tree.operator if isinstance(tree, Expression) else None"""
+    opnames = ["tree.operator"]
+    for node in ast.walk(ev):
+        if isinstance(node, ast.Assign) and len(node.targets) == 1 and isinstance(node.targets[0], ast.Name) \
+                and ast.unparse(node.value) == "tree.operator if isinstance(tree, Expression) else None":
+            opnames.append(node.targets[0].id)
+    sign_tests = set()
+    plus, powop, ops, one = [], [], [], []
+    for node in ast.walk(ev):
+        if isinstance(node, ast.IfExp) and isinstance(node.test, ast.Compare) and len(node.test.ops) == 1 \
+                and isinstance(node.test.ops[0], ast.Eq) and ast.unparse(node.test.left) in opnames:
+            if ast.unparse(node.body) != "1" or ast.unparse(node.orelse) != "-1":
+                raise TranslateError(FILE, node, "evaluator: sign expression is not  1 if .. else -1")
+            plus.append(_const_str(node.test.comparators[0], "multiplication operator"))
+            sign_tests.add(id(node.test))
+    for node in ast.walk(ev):
+        if not (isinstance(node, ast.Compare) and len(node.ops) == 1) or id(node) in sign_tests:
+            continue
+        left, op, right = ast.unparse(node.left), node.ops[0], node.comparators[0]
+        if left in opnames and isinstance(op, ast.Eq):
+            powop.append(_const_str(right, "power operator"))
+        elif left in opnames and isinstance(op, ast.In) and isinstance(right, (ast.List, ast.Tuple)):
+            ops.append([_const_str(e, "evaluator operator") for e in right.elts])
+        elif left in opnames:
+            raise TranslateError(FILE, node, "evaluator: unrecognised test on the operator")
+        elif left == "tree" and isinstance(op, (ast.Eq, ast.NotEq)):
+            one.append(_const_str(right, "empty-numerator leaf"))
+    if not (len(plus) == len(powop) == len(ops) == len(one) == 1):
+        raise TranslateError(FILE, ev, "evaluator literals not found (or not unique)")
+    return one[0], ops[0], powop[0], plus[0]
+
+
 def gen_unitsyntax(repo):
     src = open(os.path.join(repo, FILE)).read()
     tree = ast.parse(src)
@@ -141,32 +265,7 @@ def gen_unitsyntax(repo):
                     raise TranslateError(FILE, v, "precedence value is not an int literal")
                 prec.append((_const_str(k, "precedence key"), v.value))
         if isinstance(st, ast.For):
-            # the elif chain: list / push / reduce / operand
-            if len(st.body) != 2 or not isinstance(st.body[1], ast.If):
-                raise TranslateError(FILE, st, "token loop shape")
-            node = st.body[1]
-            if ast.unparse(node.test) != "isinstance(token, list)":
-                raise TranslateError(FILE, node, "token loop: first test")
-            for which in ("push", "reduce"):
-                if len(node.orelse) != 1 or not isinstance(node.orelse[0], ast.If):
-                    raise TranslateError(FILE, node, "token loop: elif chain")
-                node = node.orelse[0]
-                t = node.test
-                if not (isinstance(t, ast.BoolOp) and isinstance(t.op, ast.And) and len(t.values) == 2
-                        and ast.unparse(t.values[0]) == "token in precedence"
-                        and isinstance(t.values[1], ast.Compare) and len(t.values[1].ops) == 1
-                        and ast.unparse(t.values[1].left) == "precedence[token]"
-                        and ast.unparse(t.values[1].comparators[0]) == "precedence[top_of_operators]"
-                        and type(t.values[1].ops[0]) in CMP):
-                    raise TranslateError(FILE, node, "token loop: {} test".format(which))
-                cmps.append(CMP[type(t.values[1].ops[0])])
-                body = [ast.unparse(b) for b in node.body]
-                want = ["operator_stack.append(token)"] if which == "push" else \
-                    ["__construct_sub_tree_and_push_to_operand_stack()", "operator_stack.append(token)"]
-                if body != want:
-                    raise TranslateError(FILE, node, "token loop: {} body".format(which))
-            if [ast.unparse(b) for b in node.orelse] != ["operand_stack.append(token)"]:
-                raise TranslateError(FILE, node, "token loop: operand branch")
+            cmps = _token_loop(st, _reduce_helper(builder))
     if sentinel is None or prec is None or len(cmps) != 2:
         raise TranslateError(FILE, builder, "sentinel / precedence / comparisons not found")
     out.append("Definition gen_sentinel : list N := {}.".format(_cp(sentinel)))
@@ -177,24 +276,7 @@ def gen_unitsyntax(repo):
 
     # evaluator --------------------------------------------------------------------------
     ev = _func(tree, "__evaluate_unit_tree")
-    one, ops, powop, plusop = None, None, None, None
-    for node in ast.walk(ev):
-        if isinstance(node, ast.IfExp):
-            t = node.test
-            if isinstance(t, ast.Compare) and ast.unparse(t.left) == "tree.operator" and isinstance(t.ops[0], ast.Eq) \
-                    and ast.unparse(node.body) == "1" and ast.unparse(node.orelse) == "-1":
-                plusop = _const_str(t.comparators[0], "multiplication operator")
-        if isinstance(node, ast.If) and isinstance(node.test, ast.BoolOp) and len(node.test.values) == 2 \
-                and ast.unparse(node.test.values[0]) == "isinstance(tree, Expression)":
-            c = node.test.values[1]
-            if isinstance(c, ast.Compare) and len(c.ops) == 1 and ast.unparse(c.left) == "tree.operator":
-                if isinstance(c.ops[0], ast.Eq):
-                    powop = _const_str(c.comparators[0], "power operator")
-                elif isinstance(c.ops[0], ast.In) and isinstance(c.comparators[0], ast.List):
-                    ops = [_const_str(e, "evaluator operator") for e in c.comparators[0].elts]
-        if isinstance(node, ast.If) and isinstance(node.test, ast.Compare) and ast.unparse(node.test.left) == "tree" \
-                and isinstance(node.test.ops[0], ast.NotEq):
-            one = _const_str(node.test.comparators[0], "empty-numerator leaf")
+    one, ops, powop, plusop = _evaluator_literals(ev)
     if one is None or ops is None or powop is None or plusop is None:
         raise TranslateError(FILE, ev, "evaluator literals not found")
     out.append("Definition gen_one_leaf : list N := {}.".format(_cp(one)))
